@@ -76,8 +76,20 @@ class Forest(object):
 
 
 # ---------------------------------------------------------------- terms and queries
-def boom(*a):
-    raise ValueError("boom")
+import itertools
+import re
+
+# the raising predicate raises a different kind of exception each time it is built
+_BOOMS = itertools.cycle([ValueError, IndexError, ZeroDivisionError, KeyError, re.error, AttributeError, RuntimeError,
+                          TypeError, LookupError, ArithmeticError])
+
+
+def make_boom():
+    exc = next(_BOOMS)
+
+    def boom(*a):
+        raise exc("boom")
+    return boom
 
 
 FACT = {("eq", False): Q.eq, ("lt", False): Q.lt, ("le", False): Q.le, ("gt", False): Q.gt, ("ge", False): Q.ge,
@@ -92,7 +104,7 @@ def term(toks):
     st = []
     for k in toks:
         if k["op"] == "atom":
-            st.append(pred(boom) if k["f"] == "boom" else FACT[(k["f"], bool(k["ci"]))](val(k["arg"])))
+            st.append(pred(make_boom()) if k["f"] == "boom" else FACT[(k["f"], bool(k["ci"]))](val(k["arg"])))
         elif k["op"] == "not":
             st.append(~st.pop())
         else:
@@ -110,7 +122,7 @@ def plain_fn(toks):
     if len(toks) != 1 or k["op"] != "atom" or k["ci"]:
         raise ValueError("fn needs a single plain atom")
     if k["f"] == "boom":
-        return lambda v: boom()
+        return make_boom()
     f, a = PLAIN[k["f"]], val(k["arg"])
     return lambda v: f(v, a)
 
@@ -160,7 +172,7 @@ def receiver(forest, rng):
     return Result(children=list(forest.docs))
 
 
-def select_events(forest, case, rng, n):
+def select_events(forest, case, rng, n, extra=None):
     qs_abs, deep, roots = case["qs"], bool(case["deep"]), bool(case["roots"])
     evs = []
 
@@ -172,6 +184,7 @@ def select_events(forest, case, rng, n):
     qs = [level(q, rng) for q in qs_abs]
     out, res = call(lambda: R.select(*qs, deep=deep, roots=roots), forest)
     rec("select", docs, qs_abs, deep, roots, out, res)
+    main_ok = out == "ok"
     alt = n % 4
     if alt == 0 and deep:
         R = receiver(forest, rng)
@@ -211,6 +224,28 @@ def select_events(forest, case, rng, n):
         nodes = [c for d in forest.docs for c in d.children]
         out, res = call(lambda: Q.select(compile_queries(*qs), nodes, deep=deep, roots=roots), forest)
         rec("func", docs, qs_abs, deep, roots, out, res)
+    # (last: it changes the parent of the documents)
+    if roots and extra is not None and main_ok and n % 2 == 0:
+        # the same objects, after a roots query, are put under a NEW parentless top entry (as ConfigCombiner /
+        # Entry(children=...) do): the ultimate ancestor of every node is now that entry.  Recorded as a
+        # trace of its own over the grown forest (new top = node 1, every old node shifted by one).
+        top = Entry(children=list(forest.docs))
+        qs2 = [level(q, rng) for q in qs_abs]
+
+        def ident(c):
+            if c is top:
+                return 1
+            k = forest.idx(c)
+            return k + 1 if k else 0
+        try:
+            r = top.select(None, *qs2, deep=deep, roots=True)
+            out2, res2 = "ok", [ident(c) for c in r.children]
+        except Exception as ex:      # noqa
+            out2, res2 = "crash:" + type(ex).__name__, []
+        anyq = {"nk": "any", "nlit": [], "nterm": [], "am": "none", "aq": []}
+        extra.append({"forest": [{"d": 0, "n": [], "a": []}] + [dict(nd, d=nd["d"] + 1) for nd in forest.flat],
+                      "events": [{"ev": "select", "via": "reparent", "recv": [1], "qs": [anyq] + qs_abs, "deep": deep,
+                                  "roots": True, "out": out2, "res": res2}]})
     return evs
 
 
@@ -314,6 +349,7 @@ def main():
         inp = json.load(f)
     rng = random.Random(inp.get("seed", 0))
     traces = []
+    extra = []
     byforest = {}
     truths = []
     nsel = 0
@@ -326,7 +362,7 @@ def main():
             byforest[k] = {"id": "%s/%s" % (c.get("part", "tlc"), c.get("id", n)), "forest": c["forest"], "events": []}
             traces.append(byforest[k])
         forest = Forest(c["forest"], rng)           # fresh objects per case
-        byforest[k]["events"] += select_events(forest, c, rng, c.get("id", n))
+        byforest[k]["events"] += select_events(forest, c, rng, c.get("id", n), extra)
         nsel += 1
     rnd = inp.get("random")
     if rnd:
@@ -337,12 +373,15 @@ def main():
             for j in range(rnd["queries"]):
                 case = {"qs": [rlevel(r2) for _ in range(r2.choice([1, 1, 2, 2, 3]))], "deep": r2.random() < 0.5,
                         "roots": r2.random() < 0.3}
-                tr["events"] += select_events(Forest(fl, r2), case, r2, r2.randrange(4))
+                tr["events"] += select_events(Forest(fl, r2), case, r2, r2.randrange(4), extra)
                 nsel += 1
             traces.append(tr)
         vals = [sv(s) for s in STRS] + [iv(n) for n in range(0, 4)]
         for i in range(rnd["terms"]):
             truths.append(truth_event({"term": rterm(r2, r2.choice([2, 3, 3, 4])), "vals": vals}))
+    for i, t in enumerate(extra):
+        t["id"] = "reparent/%s/%d" % (inp.get("tag", "t"), i)
+        traces.append(t)
     dummy = [{"d": 0, "n": [], "a": []}]
     for i in range(0, len(truths), 40):
         traces.append({"id": "truth/%s/%d" % (inp.get("tag", "t"), i), "forest": dummy, "events": truths[i:i + 40]})
